@@ -27,6 +27,16 @@ CHECKS = {
             "Result Reason is expected iff it is non-zero or the status is Operation Failed (KMIP 1.4 section 6.10)",
         ],
     },
+    "C04": {
+        "level": "exploration",
+        "technique": "property-based testing (rapid) with round-trip + differential oracles: documents read by independent XML/JSON parsers and compared with the reference tree, binary identity after the text round trip; the OASIS vectors and rapid variations of them compared as trees before/after re-encoding",
+        "level_text": "Generated-input exploration (part A): messages and single items over the alphabets each format can carry are encoded to XML/JSON; the document must be well-formed for the Go standard library parsers, an independent KMIP-XML/JSON reader (pinned names) must read exactly the tree the reference encoder expects, and decoding must give a message with the byte-identical binary encoding. Part B: all 5310 request/response messages of the 410 OASIS vector files (exhaustive) and rapid value/optional-element variations of them are decoded, re-encoded and compared as trees (order, names, types, normalised values).",
+        "level_note": "Independent readers are built on encoding/xml and encoding/json plus the pinned registry; normalisation: hex case, instants, numeric enumerations/masks/big integers, boolean case. Vectors of unimplemented operations are skipped and counted.",
+        "jobs": [rapid("codec", "TestC04Generated", 3000, 10000), rapid("codec", "TestC04Scalars", 6000, 40000, shards=6),
+                 plain("codec", "TestC04Vectors"), rapid("codec", "TestC04Variations", 3000, 20000)],
+        "assumptions": ["variations keep discriminating elements (Operation, ObjectType, KeyFormatType, CredentialType, AttributeName, protocol version) unchanged, since changing them does not yield a conformant variation",
+                        "a variation the library rejects with an error is only counted"],
+    },
     "C05": {
         "level": "exploration",
         "technique": "property-based testing (rapid): directed generation per (gated field, version), reference encoder with a pinned version table as oracle, both directions",
